@@ -56,3 +56,32 @@ pub proof fn lemma_step_pre(rc: Rc, m: LzS, w: Win)
     lemma_sp_step(rc, m, w, true);
     lemma_step_extends(rc, m, w, true);
 }
+
+pub proof fn lemma_run_extends(rc: Rc, m: LzS, w: Win, size: Option<u64>)
+    requires run_pre(rc, m, w),
+    ensures match sp_run(rc, m, w, size) {
+        Some((r2, m2, w2)) => w.out.is_prefix_of(w2.out) && w2.hist >= w.hist && w2.maxd == w.maxd
+            && w2.out.len() - w.out.len() == w2.hist - w.hist && rc_adv(rc, r2) && run_pre(r2, m2, w2),
+        None => true,
+    },
+    decreases rc.inp.len(), rc.range
+{
+    lemma_step_pre(rc, m, w);
+    lemma_step_extends(rc, m, w, true);
+    assert(rc.inp.skip(0) =~= rc.inp);
+    let stop = match size { Some(n) => w.hist >= n, None => markerless_stop(rc) };
+    if !stop {
+        match sp_step(rc, m, w, true) {
+            None => {},
+            Some((st, r2, m2, w2)) => {
+                if st is Continue {
+                    lemma_run_extends(r2, m2, w2, size);
+                    match sp_run(r2, m2, w2, size) {
+                        None => {},
+                        Some((r3, m3, w3)) => { lemma_rc_adv_trans(rc, r2, r3); }
+                    }
+                }
+            }
+        }
+    }
+}
